@@ -27,7 +27,7 @@ META = {
     "Oracles: structure, every number bitwise (4 ulp for wrapped angles / renormalised measurement quaternions), chi2, and the file tokens re-parsed by the reference tokenizer. "
     "non-trivial = graph has at least one edge or an extreme scalar",
     "assumptions": ["real temp files in a private mkdtemp directory", "an SE(3) landmark edge whose offset is not registered in the graph's parameter table is outside the property's domain", "custom edges (no to_g2o) are outside the property's domain"],
-    "required_classes": ["edit_between_exports", "slots2d", "slots3d", "quat_slot", "w_negative_measurement", "shape", "ids_special", "vertex_order_permuted", "omega", "refuse", "refuse_unregistered", "cycles", "offset_rotated", "shared_param", "mixed_world", "cross_term_information"],
+    "required_classes": ["edit_between_exports", "slots2d", "slots3d", "quat_slot", "w_negative_measurement", "shape", "ids_special", "vertex_order_permuted", "omega", "refuse", "refuse_unregistered", "graph_without_parameters", "same_id_for_2d_and_3d_parameter", "cycles", "offset_rotated", "shared_param", "mixed_world", "cross_term_information"],
     "bounds": {"quick": "all slot substitutions; shapes with <=3 edges; 3 cycles", "thorough": "same + pairs of extreme scalars on vertex slots; 5 cycles"},
 }
 
@@ -252,6 +252,9 @@ def run_chunk(chunk, tier, seed):
                     for im in range(len(ID_MAPS)):
                         for shared in ((False, True) if w == "3d" and any(x >= 2 for x in ms) else (False,)):
                             _do(acc, {"t": "shape", "world": w, "ms": ms, "vorder": list(vorder), "erot": erot, "idmap": im, "shared": shared, "cycles": cyc}, ctx)
+                    if not any(x >= 2 for x in ms) and erot == 0:
+                        # a graph that carries NO offset parameters at all, written over whatever the path held before
+                        _do(acc, {"t": "shape", "world": w, "ms": ms, "vorder": list(vorder), "erot": erot, "idmap": 0, "shared": False, "cycles": cyc, "noparams": True}, ctx)
         elif typ == "edit":
             # history: export once, edit an array IN PLACE (pose / measurement / information / offset parameter), export again
             for world in ("2d", "3d"):
@@ -264,6 +267,7 @@ def run_chunk(chunk, tier, seed):
             for ms2 in _multisets(4, 2):
                 for ms3 in _multisets(4, 2):
                     _do(acc, {"t": "mixed", "ms2": ms2, "ms3": ms3, "cycles": 2}, ctx)
+                    _do(acc, {"t": "mixed", "ms2": ms2, "ms3": ms3, "cycles": 2, "same_param_id": True}, ctx)
         elif typ == "refuse":
             for ri in range(len(REFUSE)):
                 for pos in range(3):
@@ -324,9 +328,21 @@ def spec_of(case):
         b["edges"][case["edge"]]["om"] = case["om"]
         return b
     if t == "shape":
-        return shape_spec(case["world"], case["ms"], case["vorder"], case["erot"], ID_MAPS[case["idmap"]], case.get("shared", False))
+        sp = shape_spec(case["world"], case["ms"], case["vorder"], case["erot"], ID_MAPS[case["idmap"]], case.get("shared", False))
+        if case.get("noparams"):
+            sp["params"] = []
+        return sp
     if t == "mixed":
-        return mixed_spec(case["ms2"], case["ms3"])
+        sp = mixed_spec(case["ms2"], case["ms3"])
+        if case.get("same_param_id"):
+            # the 2-D and a 3-D offset parameter carry the SAME id (ids are per parameter type)
+            for p_ in sp["params"]:
+                if p_["tag"] == "PARAMS_SE3OFFSET" and p_["id"] == 3:
+                    p_["id"] = 0
+            for e in sp["edges"]:
+                if e["type"] == "lm" and len(e["off"]) == 7 and e.get("off_id") == 3:
+                    e["off_id"] = 0
+        return sp
     raise ValueError(t)
 
 
@@ -423,8 +439,12 @@ def _eval_roundtrip(case, ctx):
             classes.append("vertex_order_permuted")
         if case.get("shared"):
             classes.append("shared_param")
+        if case.get("noparams"):
+            classes.append("graph_without_parameters")
     elif t == "mixed":
         classes.append("mixed_world")
+        if case.get("same_param_id"):
+            classes.append("same_id_for_2d_and_3d_parameter")
     elif t == "omega":
         classes.append("omega")
     for e in spec["edges"]:
